@@ -15,17 +15,22 @@ def run():
     b = Bounded(PROP, 'harness.c18')
     driver.run(b)
     nv = driver.variants(b.tier)
+    plan = [mode for _v, mode in driver.variant_plan(b.tier)]
+    nb, nm, nt = plan.count('base'), plan.count('multi'), plan.count('titles')
     cov = b.coverage(
         rule=f"layout grid enumerated completely: 3-5 titled columns (first k of id:int, name:str, status:int, "
              f"tags:list, ok:bool) in every column order (150) x ranged group none/before/between/after/wide "
              f"(28 columns crossing Z/AA) x stop_on in ('blank all', 'blank first') x ladder/plain = 3000 layouts; "
-             f"per layout {nv} sheets drawn from random.Random('c18:<seed>:<layout>:<variant>'): 0-2 unknown extra "
+             f"per layout {nv} sheets ({nb} 'base' + {nm} 'multi' + {nt} 'titles', see below) drawn from "
+             f"random.Random('c18:<seed>:<layout>:<variant>'): 0-2 unknown extra "
              f"columns, 0-2 blank-titled (margin) columns at any position, group width 1-4, 0-2 leading blank rows, "
              f"1-5 data rows with blank cells (None, '', ' '), ladder runs of 0-4 blank leading cells, under 'blank all' (60 % of the sheets with a margin column) 1-2 margin-note rows (blank in every titled column, text in a blank-titled column; in ladder sheets only in a column left of the table) followed by further data rows or last, end row and "
              f"0-2 rows of junk after it (or table ending with the sheet); rules: optional (default declared) on "
              f"present and missing columns, external (None rule and (None, None, default)), ranged dict-int / "
              f"dict-str / set-bool (optional, also with no column at all), attribute order independent of column "
-             f"order, class with _NUM_ID_ATTRS 0 (45 %), 1, 2 or 3 (id = leading attributes read from present columns; id cells blank as drawn, so ids are often partly blank; 8 % of the wholly blank ids are left blank); plus four fixed sheets (the 29-column sheet of DESIGN.md Appendix A; a 1-column sheet read with an external first attribute; a B..D table with margins A and E, a margin note next to a gap row and a key attribute; a table read with a two-attribute id whose parts are blank in turn and together). "
+             f"order, class with _NUM_ID_ATTRS 0 (45 %), 1, 2 or 3 (id = leading attributes read from present columns; id cells blank as drawn, so ids are often partly blank; 8 % of the wholly blank ids are left blank); plus eight fixed sheets (the 29-column sheet of DESIGN.md Appendix A; a 1-column sheet read with an external first attribute; a B..D table with margins A and E, a margin note next to a gap row and a key attribute; a table read with a two-attribute id whose parts are blank in turn and together; a student/tutor table read into two classes whose column group lies next to the other class's columns; a ladder table read into three classes; a histogram group titled with the ints 0..3; a sheet whose read columns are titled 0, False, True, ' Name  ' and whose group is -1, 0.0, 1). "
+             f"'multi' sheets: the attributes of the generated rule set are dealt out (random.Random('c18x:...')) to 2 (75 %) or 3 classes, each with >= 1 attribute read from a present column, the ranged attribute in one class (25 %: in two), 12 % of the columns read by two classes, first attribute of a class a cell attribute in 92 %, _NUM_ID_ATTRS 0-2 per class; the table is read with XlsTableReader(rules_1, rules_2[, rules_3]).iter_table and every clause is demanded of the objects of every class, 'unknown column' meaning named by no class; 40 % of them also get re-typed titles. "
+             f"'titles' sheets: title cells re-typed: 45 % the first group of unknown columns titled n, n+1, ... as ints / floats / alternating (n in -2..1 or chosen so that 0 falls inside the group), 0-35 % of the other titled columns titled by an unused value of 0, 0.0, False (55 %) or 1, True, 2, 3, 7, 2.5, -1, 10, 1.0 (the rules name the column by str(value).strip()), 30 % of the remaining string titles padded with blanks, untitled columns None / '' / blanks. "
              f"Every sheet is read by the real iter_table and checked against the reference model; ladder sheets "
              f"are also re-read plain after filling in. non-trivial = >= 2 data rows and >= 1 optional, external "
              f"or ranged attribute",
@@ -34,6 +39,12 @@ def run():
     assumptions = [
         "worksheet interface: iter_rows() yields equally long tuples of cells with value, coordinate, row, column, "
         "parent.title (own mock, coordinates by bijective base 26)",
+        "title text of a title cell = str(value).strip() for any value that is not None (ints incl. 0, floats incl. "
+        "0.0, bools, padded strings); None and blank strings are untitled columns; the rules name columns by that text",
+        "several classes on one table: XlsTableReader yields one list per data row with one entry per class; a "
+        "column is 'unknown' (candidate for a ranged attribute) iff it is titled and no attribute rule of ANY class "
+        "reading the table names it (doc of bind_titles_row); every class has at least one attribute read from a "
+        "single cell of a present column; pre-conditions on ids / required columns hold per class",
         "titles are distinct; every required column is present; every cell that is read holds a value the "
         "attribute's reader converts (int / str / bool / list readers with their documented conversion tables; "
         "whitespace-only cells only in str-typed, unknown and blank-titled columns)",
